@@ -1,3 +1,132 @@
--- stub: replaced by the property author
+import SupervisorModel.Lemmas.CtlSpec
+/-
+  C20 — supervisorctl reports what the server said.
+
+  Model: Model/Ctl.lean (`Controller.onecmd`, `upcheck`, the 17 actions; non-interactive).  One invocation is
+  `run url line script`: the command line and the answers the server proxy gives, in the order asked.
+  The definitions unfolded here (`Sv.Gen.Ctl.*`: fault codes, LSB exit statuses, every fault comparison,
+  every exit-status assignment, the tolerated-fault arguments, the wording tables, the fault codes the server
+  side raises) are regenerated from /repo on every run.
+
+  The exit-status claim is two implications (not an equivalence); both are kept in that shape.
+-/
+set_option linter.unusedSimpArgs false
+set_option linter.unusedVariables false
 namespace Sv.Props.C20
+open Sv Sv.Ctl Sv.Gen.Ctl Sv.Ctl.Spec
+
+/-! ## the specification predicates (defined in Lemmas/CtlSpec.lean; restated here, checked by `rfl`) -/
+
+/-- the four answers the statement counts as success although they are faults, by RPC method -/
+theorem toleratedCode_def (meth : String) : toleratedCode meth =
+    if meth = "startProcess" ∨ meth = "startProcessGroup" ∨ meth = "startAllProcesses" then some Faults_ALREADY_STARTED
+    else if meth = "stopProcess" ∨ meth = "stopProcessGroup" ∨ meth = "stopAllProcesses" then some Faults_NOT_RUNNING
+    else if meth = "addProcessGroup" then some Faults_ALREADY_ADDED
+    else if meth = "shutdown" then some Faults_SHUTDOWN_STATE
+    else none := rfl
+
+/-- `refused c`: the server refused or failed the request `c`, or could not be reached: a ProtocolError (incl.
+    401), a socket error, a fault other than the tolerated one of a per-process method (any fault of a group/all
+    method), a result list with an entry that is neither SUCCESS nor the tolerated code, a wrong API version,
+    an HTTP error status of `tail -f`.  (A Fault carrying the code SUCCESS is not counted: no server sends one.) -/
+theorem refused_def (c : Call) : refused c =
+    match c.ans with
+    | .proto _ => true
+    | .sock _ => true
+    | .fault code _ => code != Faults_SUCCESS && (listMethods.contains c.meth || some code != toleratedCode c.meth)
+    | .ok (.results rs) => rs.any fun r => r.status != Faults_SUCCESS && some r.status != toleratedCode c.meth
+    | .ok (.str api) => c.meth == "getVersion" && api != API_VERSION
+    | .ok (.int _) => c.meth == "GET"
+    | .ok _ => false := rfl
+
+/-- the calls the partial theorem does not speak about: the HTTP request of `tail -f` (F23) and the result list
+    of stopProcessGroup inside `update` (F26) -/
+theorem excluded_def (a : Action) (c : Call) : excluded a c =
+    (c.meth == "GET" || (a == .update && c.meth == "stopProcessGroup" && isResults c.ans)) := rfl
+
+/-- well-formed argument lists as far as the theorem establishes them (`add`/`remove` without a name are
+    *not* rejected by the code, F24; the argument forms of tail/maintail are covered by correspondence only) -/
+theorem argsOkP_def (a : Action) (arg : String) : argsOkP a arg =
+    match a with
+    | .start | .stop | .restart | .clear => pySplit arg ≠ []
+    | .signal => 2 ≤ (pySplit arg).length
+    | .shutdown | .reload | .version | .reread | .avail => arg = ""
+    | _ => True := rfl
+
+/-! ## exit status: failure ⇒ non-zero -/
+
+/-- FULL STATEMENT (not provable today):
+      exit = 0 → (∀ c ∈ calls, refused c = false) ∧ argument list well-formed (incl. a name for add/remove).
+    PARTIAL: the calls `excluded a c` (F23: HTTP status of `tail -f`; F26: stop results inside `update`) are not
+    covered, and `add`/`remove` without a name are not shown to be rejected (F24).
+    For every action, every argument string and every answer script: if the invocation ends with exit status 0
+    (and the script fitted the calls), then no request was refused and the arguments were well-formed. -/
+theorem failure_exit_nonzero_partial (a : Action) (arg url : String) (script : List Ans)
+    (h0 : (protect (a.run arg) (init url script)).p.exit = 0)
+    (herr : (protect (a.run arg) (init url script)).err = none) :
+    (∀ c ∈ (protect (a.run arg) (init url script)).p.calls, refused c = false ∨ excluded a c = true) ∧
+    argsOkP a arg := by
+  obtain ⟨_, hp, hc⟩ := safeP_protect (safe_run a arg) (init url script) ⟨h0, herr⟩
+  refine ⟨fun c hcm => ?_, hp⟩
+  rcases hc c hcm with h | h
+  · simp [init] at h
+  · simpa [okP] using h
+
+-- non-vacuity: an invocation that ends with exit status 0 after three calls
+example : (protect (Action.restart.run "foo") (init "u" [.ok (.str "3.0"), .ok (.str "3.0"), .ok .unit,
+    .ok (.str "3.0"), .ok .unit])).p.exit = 0 := by decide
+
+/-- contrapositive form: a refused request that is not excluded makes the exit status non-zero -/
+theorem refused_call_exit_nonzero (a : Action) (arg url : String) (script : List Ans) (c : Call)
+    (hc : c ∈ (protect (a.run arg) (init url script)).p.calls) (hr : refused c = true) (hx : excluded a c = false)
+    (herr : (protect (a.run arg) (init url script)).err = none) :
+    (protect (a.run arg) (init url script)).p.exit ≠ 0 := by
+  intro h0
+  rcases (failure_exit_nonzero_partial a arg url script h0 herr).1 c hc with h | h <;> simp_all
+
+example : (protect (Action.start.run "foo") (init "u" [.ok (.str "3.0"), .fault 10 "BAD_NAME: foo"])).p.exit = 1 := by
+  decide
+example : (protect (Action.status.run "") (init "u" [.proto 401, .proto 401])).p.exit = 1 := by decide
+example : (protect (Action.stop.run "g:*") (init "u" [.sock 111])).p.exit = 4 := by decide
+
+/-- an unknown action, a missing action word or a `!` line: "*** Unknown syntax" and status GENERIC -/
+theorem unknown_syntax_exit_nonzero (l : String) (s : S) (h : s.err = none) :
+    (unknownSyntax l s).p.exit = 1 ∧ (unknownSyntax l s).outs = s.outs ++ ["*** Unknown syntax: " ++ l] := by
+  simp [unknownSyntax, out, emit, setExit, setP, guard, h, ctl_gen]
+
+/-! counterexamples that keep the theorem partial (the code as it is) -/
+/-- F24: `add` / `remove` without a name: nothing printed, exit status 0 -/
+theorem f24_add_remove_without_name :
+    (run "u" "add" []).p.exit = 0 ∧ (run "u" "add" []).outs = [] ∧
+    (run "u" "remove" []).p.exit = 0 ∧ (run "u" "remove" []).outs = [] := by decide
+/-- F23: `tail -f nosuch`: the 404 goes to stderr, the exit status stays 0 -/
+theorem f23_tail_f_http_error :
+    (run "u" "tail -f nosuch" [.ok (.str "3.0"), .ok (.int 404)]).p.exit = 0 ∧
+    (run "u" "tail -f nosuch" [.ok (.str "3.0"), .ok (.int 404)]).p.stderr = true := by decide
+/-- F26: `update` with a changed group whose stop FAILED: "stopped", "updated process group", exit status 0 -/
+theorem f26_update_ignores_failed_stop :
+    (run "u" "update" [.ok (.reload [] ["foo"] []), .ok (.results [⟨"foo", "foo", 30, "FAILED: x"⟩]), .ok .unit, .ok .unit]).p.exit = 0 ∧
+    (run "u" "update" [.ok (.reload [] ["foo"] []), .ok (.results [⟨"foo", "foo", 30, "FAILED: x"⟩]), .ok .unit, .ok .unit]).outs =
+      ["foo: stopped", "foo: updated process group"] := by decide
+
+/-! ## exit status: success ⇒ zero (function level and the list forms) -/
+
+/-- Controller.set_exitstatus_from_xmlrpc_fault, completely: SUCCESS and the tolerated code leave the status,
+    the DEAD_PROGRAM_FAULTS give NOT_RUNNING (7), everything else GENERIC (1) -/
+theorem setExitFromFault_spec (code : Int) (ign : Option Int) (s : S) (h : s.err = none) :
+    (setExitFromFault code ign s).p.exit =
+      (if code = Faults_SUCCESS ∨ some code = ign then s.p.exit
+       else if code = Faults_SPAWN_ERROR ∨ code = Faults_ABNORMAL_TERMINATION ∨ code = Faults_NOT_RUNNING then 7
+       else 1) ∧ (setExitFromFault code ign s).err = none ∧ (setExitFromFault code ign s).outs = s.outs := by
+  unfold setExitFromFault guard
+  simp only [h, Option.isSome_none, Bool.false_eq_true, if_false]
+  simp only [onIgn, setexit_g0, setexit_g1, setexit_a0, setexit_a1, K, DEAD_PROGRAM_FAULTS, List.map, List.elem_eq_contains]
+  cases ign <;> simp [setExit, setP, guard, h, ctl_gen] <;> (repeat' split) <;> simp_all <;> omega
+
+/-- the tolerated-fault argument at every call site of set_exitstatus_from_xmlrpc_fault is the documented one:
+    ALREADY_STARTED for start, NOT_RUNNING for stop, none for signal and clear -/
+theorem tolerated_arguments :
+    K do_start_c0_1 = Faults_ALREADY_STARTED ∧ K do_start_c1_1 = Faults_ALREADY_STARTED ∧ K do_start_c2_1 = Faults_ALREADY_STARTED ∧
+    K do_stop_c0_1 = Faults_NOT_RUNNING ∧ K do_stop_c1_1 = Faults_NOT_RUNNING ∧ K do_stop_c2_1 = Faults_NOT_RUNNING := by decide
+
 end Sv.Props.C20
